@@ -15,6 +15,11 @@ GRAPH_RULE = ('float models in converter normal form built with the flatbuffer o
               '(static a8/a16 x w8/w4, dynamic, weight-only, fp16, no_quantize); statistics: 75% true '
               "min/max from the check's own interpreter run, 25% synthetic (degenerate ranges). "
               'non-trivial = at least one instruction other than NO_QUANTIZE; distinct = distinct instruction encoding')
+CALIB_RULE = ('generated models (1-3 signatures) x recipes needing calibration (shipped static recipes, or 1-3 rules '
+              "whose regexes are built from the model's own scopes: exact$, exact;$, ^scope$, prefix, name;, .*) "
+              'x datasets of 1-4 random samples; every signature calibrated, chained through '
+              'previous_calibration_result; one random split per signature for the resume law; '
+              'non-trivial = result with >= 2 entries; distinct = distinct model/recipe/data literal')
 GRAPH_TB = [
     'parameters enter Insts/Perform as equality classes computed by the harness with Python == (UniformQuantParams.__eq__), plus (kind, bits, has_data)',
     'flatbuffers encoder/decoder, tensorflow.lite.tools.flatbuffer_utils and copy.deepcopy are exercised (interface E re-parses the returned bytes), not modelled',
@@ -105,5 +110,25 @@ PROPS = {
         'assumptions': GRAPH_ASSUME + [
             'I/O names are compared on the erased graph (an inserted boundary tensor is named <x>_dequant by design); number/order/shapes/signature consistency are compared raw',
             'op-replacement (EMULATED_SUBCHANNEL / BLOCKWISE) excluded as the property states'],
+    },
+    'C09': {
+        'steps': [{'script': 'corr_calib.py', 'timeout': 1500, 'timeout_thorough': 6000}],
+        'required_theorems': ['C09_each_sample_applied_once', 'C09_first_sample_initialises'],
+        'rule': CALIB_RULE,
+        'trusted_base': COMMON_TB + GRAPH_TB + [
+            "per-sample tensor min/max come from the check's own LiteRT interpreter instance (runtime oracle); the moving average is evaluated by the harness with the documented formula and compared BITWISE with the implementation"],
+        'assumptions': GRAPH_ASSUME + [
+            'the resume law calibrate(calibrate(s,D1),D2) = calibrate(s,D1++D2) is checked by execution on every generated case (all splits sampled) and by correspondence K on chained multi-signature runs; it is not yet a Coq theorem',
+            'interpreter tensor contents are runtime behaviour'],
+    },
+    'C10': {
+        'steps': [{'script': 'corr_calib.py', 'timeout': 1500, 'timeout_thorough': 6000},
+                  {'script': 'corr_plan.py', 'timeout': 1500, 'timeout_thorough': 6000}],
+        'required_theorems': ['C10_scope_eq', 'C10_same_resolution', 'C10_scope_per_op'],
+        'rule': CALIB_RULE,
+        'trusted_base': COMMON_TB + GRAPH_TB,
+        'assumptions': GRAPH_ASSUME + [
+            'C10_scope_eq is about the two scope functions as regenerated from calibrator.py and params_generator.py; the regex engine is a parameter',
+            'the no-missing-statistics clause is executed (quantize(calibrate()) on every case), not yet a theorem'],
     },
 }
